@@ -1,7 +1,8 @@
 /-
   C07 — model of `recalculation.scope.ParameterController`'s dirty-set propagation:
   `_changed`, `_update_suspended`, `updates_postponed()` (a context manager that stores the
-  previous flag in its frame — modelled by a stack), `_updateIntermediateValues` (one pass over
+  previous flag in its frame — modelled by a stack; its `try: yield / finally:` restores the flag
+  and propagates on EVERY exit path, so a block left by an exception behaves like a normal exit), `_updateIntermediateValues` (one pass over
   the definitions in topological order, each updated definition marks its clients) and
   `assign_all` (store the setting, mark the definition, propagate unless suspended).
 
@@ -60,7 +61,7 @@ inductive Op (V : Type) where
   | assign (k : Nat) (v : V)     -- assign_all on leaf k, then update_intermediate_values([defn])
   | enter                        -- `with updates_postponed():`
   | exit                         -- normal end of the block
-  | xexit                        -- the block is left by an exception (nothing after `yield` runs)
+  | xexit                        -- the block is left by an exception (the `finally:` clause runs)
 
 def step (g : Graph V) (s : St V) : Op V → St V
   | .assign k v =>
@@ -71,9 +72,10 @@ def step (g : Graph V) (s : St V) : Op V → St V
     | [] => s
     | old :: rest => updateIntermediate g { s with suspended := old, stack := rest }
   | .xexit =>
+    -- `finally: self._update_suspended = old; self._updateIntermediateValues()`
     match s.stack with
     | [] => s
-    | _ :: rest => { s with stack := rest }
+    | old :: rest => updateIntermediate g { s with suspended := old, stack := rest }
 
 def run (g : Graph V) : St V → List (Op V) → St V
   | s, [] => s
